@@ -58,6 +58,7 @@ def run(R):
     known_finding_probe(R)
     run_print_stream(R, 'C01', 'CTL', 1500 if R.thorough else 150)
     run_mc(R, 'CTL', cases(R))
+    long_structures(R, 'C01', 'CTL')
     # or/and nodes with 3-5 (or 1) operands, each a distinct quantified formula
     run_mc(R, 'CTL', wide_cases(R.rng, 3000 if R.thorough else 300, 'CTL'), label='_wide_connectives')
 
